@@ -28,7 +28,8 @@ type sessState struct {
 }
 
 var hostClasses = []string{"WIN-PLAIN01", "hôst-é中", "007", "x y", ""}
-var pathClasses = []string{"C:\\Windows\\System32\\notepad.exe", "C:\\Üsers\\中文\\p.exe", "C:\\tmp\\\U0001F600\\a.exe", "relative.exe"}
+var pathClasses = []string{"C:\\Windows\\System32\\notepad.exe", "C:\\Üsers\\中文\\p.exe", "C:\\tmp\\\U0001F600\\a.exe", "relative.exe",
+	"C:\\Users\\José\\café.exe", "Müller\u00ff.exe", "C:\\\u0080\u00a0\\x.exe", "C:\\Łódź\\ż.exe"}
 
 func mkMeta(rng *rand.Rand, tag string) refdemon.Meta {
 	m := refdemon.DefaultMeta(tag)
@@ -121,7 +122,7 @@ func (s *sessState) project() map[string]any {
 				meta = "?" + sym + ":" + d
 			}
 		}
-		list = append(list, map[string]any{"id": id, "key": key, "meta": meta})
+		list = append(list, map[string]any{"id": id, "key": key, "meta": meta, "active": a.Active})
 	}
 	return map[string]any{"sess": list}
 }
@@ -183,6 +184,27 @@ func RunSessions(behs [][]Step, tr *Trace, env Env, sum *Summary) {
 					}
 					r = w.Request(refdemon.CheckIn(s.ids[h], kk))
 					reply = s.classify(r, kk)
+				case "Kill":
+					ag := w.Agent(s.ids[h])
+					kk := s.cur[h]
+					if ag != nil && k == "exit" {
+						s.req++
+						pk := packager.Package{}
+						pk.Head.Event, pk.Head.User, pk.Body.SubEvent = packager.Type.Session.Type, "neo", packager.Type.Session.Input
+						pk.Body.Info = map[string]any{"DemonID": ag.NameID, "CommandID": "92", "ExitMethod": "thread", "TaskID": fmt.Sprintf("%08X", s.req), "CommandLine": "exit"}
+						guarded(func() { w.TS.DispatchEvent(pk) }, 5*time.Second)
+						b := &refdemon.Buf{}
+						b.I32(1)
+						r = w.Request(refdemon.Packages(s.ids[h], kk, []refdemon.Sub{{Cmd: refdemon.CmdExit, Req: s.req, Body: b.B}}))
+						reply = s.classify(r, kk)
+					} else if ag != nil {
+						pk := packager.Package{}
+						pk.Head.Event, pk.Head.User, pk.Body.SubEvent = packager.Type.Session.Type, "neo", packager.Type.Session.MarkAsDead
+						pk.Body.Info = map[string]any{"AgentID": ag.NameID, "Marked": "Dead"}
+						p, to := guarded(func() { w.TS.DispatchEvent(pk) }, 5*time.Second)
+						r = world.Result{Status: 200, Panic: p, Timeout: to}
+						reply = "nojob"
+					}
 				case "Refresh":
 					ag := w.Agent(s.ids[h])
 					s.req++
